@@ -1101,6 +1101,13 @@ func classifySrv(s *SrvH) core.Class {
 		cl.NonTrivial = true
 	}
 	label(fmt.Sprintf("dispatch-listeners:%d", maxCoexist))
+	for _, op := range s.Ops {
+		if op.K == "add" && op.L != nil && op.L.Kind == "http" {
+			for _, hl := range hostLabels(op.L.HTTP.Hosts) {
+				label(hl)
+			}
+		}
+	}
 	keys := func(m map[string]bool) string {
 		var ks []string
 		for k, v := range m {
